@@ -24,6 +24,8 @@ type segment struct {
 	segmentStartPts int64
 	// whether current segement is sequence header.
 	isSequenceHeader bool
+	// whether the segment already holds video (a forced cut would start the next one mid-GOP).
+	hasVideo bool
 }
 
 func newSegment(memory bool) *segment {
